@@ -167,8 +167,13 @@ def rule_transparency(ctx, side: str):
         q = f"{base_mod}.{cname}"
         if q not in model.classes:
             continue
+        if not model.is_subclass(q, base):
+            ctx.fail(rule, f"check_only[{cname}]", None, f"check_only() has a disjunct starting with isinstance(..., {cname}), which is not a node class: the predicate no longer has the shape (node class and its conditions) per disjunct", model.classes[q].module.relpath, model.classes[q].node.lineno)
+            continue
         for sub in model.subclasses(q):
             m = model.find_method(sub, verb)
+            if m is None:
+                continue
             for ret, kind, guards in classify_returns(model, m, param, verb):
                 ok, why = True, kind
                 if kind in ("param", "none"):
